@@ -178,7 +178,10 @@ def permProbRaw (perm : Mat → Except Err Rat) (S : Mat) : Except Err Mat :=
 
 def permanentProbWith (perm : Mat → Except Err Rat) (arr : Mat) : Except Err Mat :=
   match scaleRows arr with
-  | none => .error .nan
+  | none =>
+    -- a NaN row; for a 1×1 block `nan == 0` is false and `fast_glynn_perm` is then called on
+    -- the empty minor, which raises TypeError; larger blocks just propagate NaN
+    if arr.length = 1 then .error .type else .error .nan
   | some S =>
     match permProbRaw perm S with
     | .error e => .error e
